@@ -55,6 +55,10 @@ def gen(ctx):
         cases.append(history_case(r, nt, bo, sh, letters, mode=r.choice(['r+', 'r+', 'r']),
                                   metadata=r.choice([None, None, {'a': 1}]),
                                   layout=r.choice(['C', 'F', 'strided', 'T'])))
+    # every fourth history runs with the array held open in an open_array() context: same outcomes
+    for i, c in enumerate(cases):
+        if i % 4 == 3 and not any(o['op'] == 'delete' for o in c['ops']):
+            c['heldopen'] = True
     return cases
 
 
